@@ -158,35 +158,130 @@ theorem libraryElement_fb (p : Fb) (hp : p.WF) (R : List Item) :
   rw [bind_some _ _ _ _ _ (functionBlock_reads p hp R)]
   rfl
 
-/-- a top-level declaration of the family: a program (with or without variables) or a function block -/
+/-! ### functions -/
+
+/-- the alternatives of the variable blocks of a function fail on a token that starts none of them -/
+theorem fnVarBlocks_none (t : Item) (ts : List Item)
+    (h : t.ty ≠ "VarAccess" ∧ t.ty ≠ "VarInput" ∧ t.ty ≠ "VarOutput" ∧ t.ty ≠ "VarInOut" ∧ t.ty ≠ "VarExternal" ∧ t.ty ≠ "Var") :
+    (ioVarDeclarations <|> (do let f ← functionVarDecls; pure [f]) : P (List VD)) (t :: ts) = none := by
+  obtain ⟨_, h2, h3, h4, _, h6⟩ := h
+  have a2 : ioVarDeclarations (t :: ts) = none := by
+    rw [ioVarDeclarations]
+    rw [orElse_none _ _ _ (by rw [inputDeclarations]; exact bind_none _ _ _ (tok_miss _ _ _ h2))]
+    rw [orElse_none _ _ _ (by apply bind_none; rw [outputDeclarations]; exact bind_none _ _ _ (tok_miss _ _ _ h3))]
+    apply bind_none; rw [inputOutputDeclarations]; exact bind_none _ _ _ (tok_miss _ _ _ h4)
+  rw [orElse_none _ _ _ a2]
+  apply bind_none
+  rw [functionVarDecls]; exact bind_none _ _ _ (tok_miss _ _ _ h6)
+
+/-- `FUNCTION name : T statements END_FUNCTION` (no variable blocks; `T` an elementary type name, `v` its variant) -/
+structure Fn where
+  kFn : Item
+  name : Item
+  colon : Item
+  rty : Item
+  v : String
+  body : Stl
+  kEnd : Item
+
+namespace Fn
+
+def toks (p : Fn) : List Item := p.kFn :: p.name :: p.colon :: p.rty :: (p.body.toks ++ [p.kEnd])
+
+def WF (p : Fn) : Prop :=
+  p.kFn.ty = "Function" ∧ p.name.ty = "Identifier" ∧ p.colon.ty = "Colon" ∧ p.kEnd.ty = "EndFunction" ∧
+  (∀ R, elementaryTypeName (p.rty :: R) = some (p.v, R)) ∧ isTrivia p.rty.ty = false ∧ p.body.WF ∧ p.body.isNil = false
+
+def sx (p : Fn) : Sx :=
+  .n "FunctionDeclaration" [("name", .a (txt p.name)), ("return_type", elementaryAsType p.v), ("variables", .l []),
+    ("edge_variables", .l []), ("body", .l p.body.sxs)]
+
+end Fn
+
+theorem function_reads (p : Fn) (hp : p.WF) (R : List Item) :
+    functionDeclaration (p.toks ++ R) = some (p.sx, R) := by
+  obtain ⟨hF, hN, hC, hE, hT, hTt, hb, hne⟩ := hp
+  have hK : isCloser p.kEnd.ty = true := by rw [hE]; decide
+  obtain ⟨s, semi, rest, hbody⟩ : ∃ s semi rest, p.body = Stl.cons s semi rest := by
+    cases hb' : p.body with
+    | nil => rw [hb'] at hne; cases hne
+    | cons s semi rest => exact ⟨s, semi, rest, rfl⟩
+  have hs : s.WF := by rw [hbody] at hb; exact hb.1
+  obtain ⟨t, ts, hts, hstart⟩ := St.head s hs
+  let B := p.body.toks ++ p.kEnd :: R
+  have hB : B = t :: (ts ++ semi :: (rest.toks ++ p.kEnd :: R)) := by
+    show p.body.toks ++ p.kEnd :: R = _
+    rw [hbody]; simp [Stl.toks, hts, List.append_assoc]
+  have hwsB : ws B = some ((), B) := ws_stl p.body hb p.kEnd R hK
+  have htoks : p.toks ++ R = p.kFn :: p.name :: p.colon :: p.rty :: B := by
+    simp [Fn.toks, B, List.append_assoc]
+  have hrt : ((do let et ← elementaryTypeName; pure (elementaryAsType et)) <|> typeName : P Sx) (p.rty :: B)
+      = some (elementaryAsType p.v, B) := by
+    apply orElse_some
+    rw [bind_some _ _ _ _ _ (hT B)]
+    rfl
+  have hsep : sepBy (ioVarDeclarations <|> (do let f ← functionVarDecls; pure [f]) : P (List VD)) ws B = some ([], B) := by
+    apply sepBy_of_none
+    rw [hB]
+    exact fnVarBlocks_none t _ (start_not_var hstart)
+  have hst : (fun ts => statementList (fuelFor ts.length) ts : P (List Sx)) B = some (p.body.sxs, p.kEnd :: R) :=
+    statementList_roundtrip p.body hb hne p.kEnd R hK _ (Nat.le_refl _)
+  rw [htoks, functionDeclaration]
+  rw [bind_some _ _ _ _ _ (tok_hit _ _ _ hF), bind_some _ _ _ _ _ (ws_cons p.name _ (by rw [hN]; decide)),
+    bind_some _ _ _ _ _ (identifier_hit _ _ hN), bind_some _ _ _ _ _ (ws_cons p.colon _ (by rw [hC]; decide)),
+    bind_some _ _ _ _ _ (tok_hit _ _ _ hC), bind_some _ _ _ _ _ (ws_cons p.rty _ hTt),
+    bind_some _ _ _ _ _ hrt, bind_some _ _ _ _ _ hwsB, bind_some _ _ _ _ _ hsep, bind_some _ _ _ _ _ hwsB,
+    bind_some (fun ts => statementList (fuelFor ts.length) ts) _ _ _ _ hst,
+    bind_some _ _ _ _ _ (ws_cons p.kEnd _ (closer_not_trivia hK)), bind_some _ _ _ _ _ (tok_hit _ _ _ hE)]
+  rfl
+
+theorem libraryElement_fn (p : Fn) (hp : p.WF) (R : List Item) :
+    libraryElementDeclaration (p.toks ++ R) = some ([.t "FunctionDeclaration" [p.sx]], R) := by
+  have hF : p.kFn.ty = "Function" := hp.1
+  have htoks : p.toks ++ R = p.kFn :: (p.name :: p.colon :: p.rty :: (p.body.toks ++ [p.kEnd]) ++ R) := by simp [Fn.toks]
+  rw [libraryElementDeclaration]
+  have h1 : (do let ds ← dataTypeDeclaration; pure (ds.map fun d => Sx.t "DataTypeDeclaration" [d]) : P (List Sx)) (p.toks ++ R) = none := by
+    apply bind_none; rw [htoks, dataTypeDeclaration]; exact bind_none _ _ _ (tok_miss _ _ _ (by rw [hF]; decide))
+  rw [orElse_none _ _ _ h1]
+  apply orElse_some
+  rw [bind_some _ _ _ _ _ (function_reads p hp R)]
+  rfl
+
+/-- a top-level declaration of the family: a program (with or without variables), a function block or a function -/
 inductive Pou where
   | prog (a : AnyProg)
   | fb (p : Fb)
+  | fn (p : Fn)
 
 namespace Pou
 
 def toks : Pou → List Item
   | prog a => a.toks
   | fb p => p.toks
+  | fn p => p.toks
 
 /-- the library element the grammar action builds -/
 def elem : Pou → Sx
   | prog a => .t "ProgramDeclaration" [a.sx]
   | fb p => .t "FunctionBlockDeclaration" [p.sx]
+  | fn p => .t "FunctionDeclaration" [p.sx]
 
 def WF : Pou → Prop
   | prog a => a.WF
   | fb p => p.WF
+  | fn p => p.WF
 
 theorem head (a : Pou) (h : a.WF) : ∃ t ts, a.toks = t :: ts ∧ isTrivia t.ty = false := by
   cases a with
   | prog a => obtain ⟨t, ts, hts, hP⟩ := a.head h; exact ⟨t, ts, hts, by rw [hP]; decide⟩
   | fb p => exact ⟨p.kFb, _, rfl, by rw [h.1]; decide⟩
+  | fn p => exact ⟨p.kFn, _, rfl, by rw [h.1]; decide⟩
 
 theorem reads (a : Pou) (h : a.WF) (R : List Item) : libraryElementDeclaration (a.toks ++ R) = some ([a.elem], R) := by
   cases a with
   | prog a => exact libraryElement_any a h R
   | fb p => exact libraryElement_fb p h R
+  | fn p => exact libraryElement_fn p h R
 
 end Pou
 
@@ -215,8 +310,8 @@ theorem pou_chain (ps : List Pou) (h : ∀ p ∈ ps, p.WF) :
     rw [bind_some _ _ _ _ _ hws]
     exact p.reads hp _
 
-/-- **`Parse.library` on libraries of programs and function blocks** (each with or without a VAR block of
-elementary-typed variables, statements nested to any depth), in any order and number: the declarations in source
+/-- **`Parse.library` on libraries of programs, function blocks** (each with or without a VAR block of
+elementary-typed variables) **and functions** (`FUNCTION name : T statements END_FUNCTION`; statements nested to any depth), in any order and number: the declarations in source
 order, nothing dropped, duplicated or reordered; the whole input is consumed. -/
 theorem library_reads_pous (ps : List Pou) (h : ∀ p ∈ ps, p.WF) :
     library (ps.flatMap Pou.toks) = some (.n "Library" [("elements", .l (ps.map Pou.elem))]) := by
